@@ -42,6 +42,7 @@ class Result:
     nontrivial: bool = False
     observed: Any = None                             # short observation for replay files
     target: float | None = None                      # optional hypothesis.target() score
+    counters: dict = field(default_factory=dict)     # optional measured integer counters, summed into evidence coverage.counters
 
     def add(self, sig, detail=""):
         self.violations.append(V(sig, str(detail)[:600]))
@@ -173,7 +174,7 @@ def get_obligations(prop_id: str) -> list[Obligation]:
 def _new_acc():
     return {
         "evaluations": 0, "labels": Counter(), "nt": set(), "samples": [], "nt_samples": [],
-        "viol": {}, "inconclusive": 0, "wall": 0.0,
+        "viol": {}, "inconclusive": 0, "wall": 0.0, "counters": Counter(),
     }
 
 
@@ -181,6 +182,9 @@ def _record(acc, case, res: Result):
     acc["evaluations"] += 1
     for l in res.labels:
         acc["labels"][l] += 1
+    for k, v in (getattr(res, "counters", None) or {}).items():
+        if isinstance(v, int):
+            acc["counters"][k] += v
     if getattr(res, "_inconclusive", False):
         acc["inconclusive"] += 1
         if len(acc.setdefault("inconclusive_cases", [])) < 3:
@@ -241,6 +245,7 @@ def worker(args):
         acc["error"] = f"{type(e).__name__}: {e}\n" + "".join(traceback.format_exception(e))[-4000:]
     acc["wall"] = time.time() - t0
     acc["labels"] = dict(acc["labels"])
+    acc["counters"] = dict(acc["counters"])
     acc["nt"] = sorted(acc["nt"])
     acc["oname"] = oname
     acc["mode"] = mode
